@@ -642,7 +642,7 @@ func skipInit(path string) bool {
 		"golang.org/x/sys/unix", "internal/abi", "internal/bytealg", "internal/runtime/atomic", "log/slog", "log/internal",
 		"encoding/asn1", "crypto/ecdsa", "crypto/elliptic", "crypto/rsa", "crypto/ed25519", "crypto/internal/nistec",
 		"vendor/golang.org/x/net/http2/hpack", "vendor/golang.org/x/net/idna", "vendor/golang.org/x/text/unicode/norm",
-		"vendor/golang.org/x/text/unicode/bidi", "vendor/golang.org/x/net/http/httpguts", "unicode", "mime/multipart", "net/textproto",
+		"vendor/golang.org/x/text/unicode/bidi", "unicode", "mime/multipart",
 		"net/netip", "internal/nettrace", "internal/singleflight", "internal/intern", "unique", "weak":
 		return true
 	}
